@@ -33,6 +33,7 @@ def run(chk: Check):
     logging_(chk, rng)
     node_api(chk, rng)
     mvnd_numeric(chk, rng)
+    builder_life(chk, rng)
 
 
 VW_MC = """CONSTANTS NV = 2 NN = {nn} Kind <- Kind{nn} Names = {names} Atomic = {atomic}
@@ -244,3 +245,40 @@ def mvnd_numeric(chk, rng):
 def gb_update_only(chk, rng):
     chk.tv("Trace_Growth.tla", [{"hdr": {"kind": "gb_update"}, "ev": D.gb_update_events(rng, 60)}], tag="gb_update",
            keyfn=lambda r: f"{r.trace['hdr']['kind']}:{r.conjunct}", describe=lambda r: str(r.trace["ev"][r.line - 1])[:600])
+
+
+EBL_MC = """CONSTANTS NM = 2 MaxK = 2 MaxE = 2 Rebind = {rb}
+SPECIFICATION Spec
+PROPERTY IdentsStable
+PROPERTY UserBindingRespected
+"""
+
+
+def builder_life(chk, rng):
+    """EngineBuilderLife.tla: which model the kernels of each built engine are bound to (G10)."""
+    from vlib.core import run_tlc
+    acts = ["SetModel", "AddKernel", "SetInit", "SetEpochs", "Build"]
+    chk.mc("MC_EngineBuilderLife.tla", EBL_MC.format(rb="TRUE") + "INVARIANT EnginesCoherent\nPROPERTY RejectedBuildIsNoOp\n",
+           tag="builder-life-documented", expect_actions=acts, workers=2,
+           what="2 interfaces, <= 2 kernels, <= 2 builds, every call order: documented binding keeps every engine coherent")
+    chk.mc("MC_EngineBuilderLife.tla", EBL_MC.format(rb="FALSE"), tag="builder-life-as-coded", expect_actions=acts, workers=2,
+           what="as coded: identifiers and user bindings are stable")
+    r1 = run_tlc("MC_EngineBuilderLife.tla", EBL_MC.format(rb="FALSE") + "INVARIANT EnginesCoherent\n", tag="growth-ebl-g10", workers=1, timeout=120)
+    r2 = run_tlc("MC_EngineBuilderLife.tla", EBL_MC.format(rb="FALSE") + "PROPERTY RejectedBuildIsNoOp\n", tag="growth-ebl-g10b", workers=1,
+                 timeout=120)
+    chk.extra["G10_as_coded_counterexamples"] = [r1.error or "none", r2.error or "none"]
+    # the shortest history of that kind on the real builder
+    t = D.builder_life_trace(rng, ops=[("set_model", 1), ("add_kernel", 0, False), ("set_initial_values",), ("set_epochs",), ("build",),
+                                       ("set_model", 2), ("build",)])
+    last = t["ev"][-1]
+    repro = last["reason"] == "none" and last["engine_model"] == 2 and last["engine_kmodels"] == [1]
+    chk.extra["G10_reproduced_on_real_builder"] = bool(repro)
+    chk.note("G10 (not a listed property): EngineBuilder.set_model is documented to set the interface for all kernels, but build() "
+             "only binds kernels that have no model yet - after `build(); set_model(other); build()` the second engine stores "
+             f"positions with the new interface while its kernels sample the old one (TLC: {r1.error}; real builder: engine model "
+             f"{last.get('engine_model')}, kernel models {last.get('engine_kmodels')}; reproduced = {bool(repro)}); and a build "
+             f"rejected for missing initial values has already bound and named the kernels (TLC: {r2.error}).")
+    trs = [D.builder_life_trace(rng, 12) for _ in range(60 if chk.quick else 1500)] + [t]
+    cfg = "CONSTANTS NM = 2 MaxK = 99 MaxE = 99 Rebind = FALSE\n"
+    chk.tv("Trace_EngineBuilderLife.tla", trs, tag="builder_life", cfg_extra=cfg, keyfn=lambda r: f"builder_life:{r.conjunct}",
+           describe=lambda r: str([(e["ev"], e.get("m"), e.get("u"), e["reason"]) for e in r.trace["ev"][:r.line]])[:500])
